@@ -15,7 +15,7 @@ RULE = ("block 'ctor': a random (values, dims, labels) built through every docum
         "block 'twin': random programs of 1-12 public operations (indexing, assignment, arithmetic, reductions, reshape family, reindex, "
         "align, stack/concatenate, in-place rename/relabel via set_axis / a.<dim>= / labels= / axes[d][i]=, Dataset insert/extract, cache-"
         "populating queries) on a pool of live arrays, each compared after every step with a freshly built twin through a probe battery; "
-        "guest shards: all other workloads with the well-formedness hook deciding. class = (block, form) or (set of step kinds, length)")
+        "rejection cases include the axes setter given plain lists of the wrong size and zeros/ones/empty/nans given axes and a disagreeing shape; guest shards: all other workloads with the well-formedness hook deciding. class = (block, form) or (set of step kinds, length)")
 ANCHORS = ["dimarraycls.__init__", "axes.append", "axes._init_axes", "axes._check_axis_values", "axes.is_monotonic"]
 # entry points the workload calls itself; the other anchors are helpers behind them (counted as evidence only)
 ANCHORS_REQUIRED = ["dimarraycls.__init__"]
@@ -151,6 +151,12 @@ def ctor(case, ctx):
     bad.append(("empty name (Axis)", lambda: Axis(L[0], '')))
     bad.append(("missing axis", lambda: da.DimArray(v, axes=L[:-1], dims=D[:-1]) if nd > 1 else da.DimArray(v, axes=[[1, 2, 3, 4, 5, 6, 7]], dims=D)))
     bad.append(("2-D labels for one axis", lambda: da.DimArray(v, axes=[np.zeros((v.shape[0], 2, 2))] + L[1:], dims=D)))
+    # the helpers given both the axes and a shape that disagrees with them
+    wshape = (v.shape[0] + 1,) + tuple(v.shape[1:])
+    for hn_ in ('zeros', 'ones', 'empty', 'nans'):
+        bad.append(("%s(axes, shape=<one more along the first dimension>)" % hn_, lambda hn_=hn_: getattr(da, hn_)(axes=[Axis(l, d) for d, l in zip(D, LA)], shape=wshape)))
+    if nd >= 2 and v.shape[0] != v.shape[1]:
+        bad.append(("zeros(axes, shape=<transposed>)", lambda: da.zeros(axes=[Axis(l, d) for d, l in zip(D, LA)], shape=(v.shape[1], v.shape[0]) + tuple(v.shape[2:]))))
     a0 = da.DimArray(v, axes=L, dims=D)
     bad.append(("axes setter with a wrong size", lambda: setattr(a0, 'axes', da.Axes([Axis(l, d) for d, l in zip(D, L2)]))))
     bad.append(("axes setter (list of Axis objects) with a wrong size", lambda: setattr(a0, 'axes', [Axis(l, d) for d, l in zip(D, L2)])))
